@@ -32,6 +32,7 @@ func checkC13(r *core.Run) {
 	}
 	c13Select(r, p)
 	c13Amounts(r, p)
+	c13BatchReadsToEnd(r, p, "R-C13-amounts")
 	c13Guards(r, p)
 	c13Dispatch(r, p)
 	c13Effects(r, p)
@@ -1619,4 +1620,99 @@ func c13IntRole(c *ssa.Call) int {
 		}
 	}
 	return -1
+}
+
+// c13BatchReadsToEnd: every line of the batch file is a requested payment.  The loop that reads the file may
+// stop only because the reader has nothing more (the line / the error it returned compared with nil or io.EOF,
+// or a Scanner's Scan() result) - never because of what a line contains: a loop that ends at the first empty
+// line silently drops every payment after it, and the transaction is written without them.
+func c13BatchReadsToEnd(r *core.Run, p *core.Program, rule string) {
+	fn := c13w(p, "parse_batch")
+	key := "requests/parse_batch/reads-to-end"
+	if fn == nil {
+		r.Fail(rule, key, "-", "parse_batch not found")
+		return
+	}
+	isRead := func(v ssa.Value) bool {
+		c, ok := v.(*ssa.Call)
+		if !ok {
+			return false
+		}
+		n := an.CallName(c)
+		return strings.HasPrefix(n, "(*bufio.Reader).Read") || strings.HasPrefix(n, "(*bufio.Scanner).Scan")
+	}
+	var reads []*ssa.Call
+	an.Instrs(fn, func(i ssa.Instruction) {
+		if c, ok := i.(*ssa.Call); ok && isRead(c) {
+			reads = append(reads, c)
+		}
+	})
+	if len(reads) == 0 {
+		// the file is not read through a buffered reader (read whole and split): a loop over the pieces ends with the data
+		r.OK(rule, key, p.Pos(fn.Pos()), "the batch file is not read line by line through a reader: no end-of-input test to get wrong")
+		return
+	}
+	if len(reads) != 1 {
+		r.Check(false, rule, key, p.Pos(fn.Pos()), "", fmt.Sprintf("%d calls reading the batch file (expected one, in a loop)", len(reads)))
+		return
+	}
+	rd := reads[0]
+	// innermost loop holding the read
+	var body map[*ssa.BasicBlock]bool
+	for _, b := range fn.Blocks {
+		if lb := an.LoopBody(b); lb != nil && lb[rd.Block()] && (body == nil || len(lb) < len(body)) {
+			body = lb
+		}
+	}
+	if body == nil {
+		r.Check(false, rule, key, p.Pos(rd.Pos()), "", "the batch file is not read in a loop")
+		return
+	}
+	fromReader := func(v ssa.Value) bool {
+		if isRead(v) {
+			return true
+		}
+		if ex, ok := v.(*ssa.Extract); ok && ex.Tuple == ssa.Value(rd) {
+			return true
+		}
+		return false
+	}
+	endOfInput := func(c ssa.Value) bool {
+		if u, ok := c.(*ssa.UnOp); ok && u.Op == token.NOT {
+			c = u.X
+		}
+		if fromReader(c) {
+			return true // for sc.Scan()
+		}
+		bo, ok := c.(*ssa.BinOp)
+		if !ok || (bo.Op != token.EQL && bo.Op != token.NEQ) {
+			return false
+		}
+		other := func(v ssa.Value) bool {
+			if k, ok := v.(*ssa.Const); ok && k.Value == nil {
+				return true
+			}
+			return strings.Contains(an.Expr(v), "io.EOF")
+		}
+		return (fromReader(bo.X) && other(bo.Y)) || (fromReader(bo.Y) && other(bo.X))
+	}
+	n := 0
+	bad := ""
+	for b := range body {
+		for _, s := range b.Succs {
+			if body[s] {
+				continue
+			}
+			n++
+			iff, ok := b.Instrs[len(b.Instrs)-1].(*ssa.If)
+			if !ok {
+				bad = "the reading loop is left unconditionally at " + p.Pos(b.Instrs[len(b.Instrs)-1].Pos())
+				continue
+			}
+			if !endOfInput(iff.Cond) {
+				bad = fmt.Sprintf("the loop reading the batch file ends on '%s' at %s, a condition about the line's content rather than the end of the input: the payments after such a line are silently dropped", an.Expr(iff.Cond), p.Pos(iff.Cond.Pos()))
+			}
+		}
+	}
+	r.Check(n >= 1 && bad == "", rule, key, p.Pos(rd.Pos()), fmt.Sprintf("the reading loop ends only at the end of the input (%d exit(s))", n), bad)
 }
